@@ -464,15 +464,10 @@ def _rep_case(args):
 def representations(tier, seed):
     cases = []
     for kind, nbits in (('state', len(REPRESENTABLE)), ('observation', len(REPRESENTABLE) + 2)):
-        tmasks = range(1, 1 << nbits)
-        if tier == 'quick' and kind == 'observation':
-            r = random.Random(seed)
-            tmasks = sorted(set(r.randrange(1, 1 << nbits) for _ in range(600)) | {(1 << nbits) - 1})
-        for tm in tmasks:
+        # complete in both tiers (about 25 s on 16 cores): every subset of classes x every subset of colours
+        for tm in range(1, 1 << nbits):
             for cm in range(16):
                 cases.append((kind, tm, cm, seed))
-    if tier == 'quick':
-        cases = [c for k, c in enumerate(cases) if c[0] == 'observation' or k % 4 == 0 or c[2] in (0, 15)]
     with mp.Pool(16) as pool:
         res = pool.map(_rep_case, cases, chunksize=64)
     pairs = sum(r['orientation_pairs'] for r in res)
@@ -484,14 +479,14 @@ def representations(tier, seed):
     return {
         'what': 'representations: per-object encoders of every space (enumerated), array level sampled (C15, C16)',
         'bound': ('every non-empty subset of the 9 state-representable classes x every colour subset (state); '
-                  + ('every' if tier != 'quick' else '600 random + full') + ' subset of the 11 classes x every colour subset '
+                  + 'every subset of the 11 classes x every colour subset '
                   '(observation); every flat object of each space; one sampled member per space and representation on a '
                   '3x4 / 3x5 grid with single-change variants'),
         'evaluations': sum(r['evaluations'] for r in res),
         'distinct_nontrivial': sum(r['nontrivial'] for r in res),
         'failures': failures,
         'samples': [{'kind': cases[len(cases) // 3][0], 'type_mask': cases[len(cases) // 3][1], 'colour_mask': cases[len(cases) // 3][2]}],
-        'exhaustive': tier != 'quick',
+        'exhaustive': True,
     }
 
 
